@@ -217,7 +217,11 @@ def gen_decimal(rng):
 def gen_fraction(rng):
     if rng.random() < 0.3:
         return fractions.Fraction(rng.choice([0, 1, -1, 5]), 1)
-    return fractions.Fraction(rng.randrange(-10**6, 10**6), rng.randrange(1, 10**6))
+    if rng.random() < 0.6:
+        return fractions.Fraction(rng.randrange(-10**6, 10**6), rng.randrange(1, 10**6))
+    # numerators and denominators of any size (the text form "n/d" carries them exactly)
+    big = lambda: rng.choice([10**6 + 1, 10**9 + 7, 10**12 + 1, 2**64 + 1, 3**41, rng.randrange(1, 10**30)])  # noqa: E731
+    return fractions.Fraction(rng.choice([1, -1]) * rng.choice([1, 7, big()]), big())
 
 
 def gen_uuid(rng):
